@@ -1,5 +1,6 @@
 (* C14 -- Lifecycle: hooks installed once, restored exactly; shutdown always completes. *)
-From Deep Require Import Base Lifecycle LifecycleProofs.
+From Deep Require Import Base Lifecycle LifecycleProofs ExnFlow.
+From DeepGen Require Import Skeleton.
 
 (* repeat starts do nothing *)
 Theorem C14_start_once : forall c l, started l = true -> do_start c l = l.
@@ -43,3 +44,13 @@ Theorem C14_unguarded_refuted :
   started unguarded_witness = true /\ attempted unguarded_witness = [SHooks; SFlush; SPoll; SPlugin 0].
 Proof. exact unguarded_refuted. Qed.
 Print Assumptions C14_unguarded_refuted.
+
+(* translator-tied: in the skeleton of Deep.shutdown REGENERATED from /repo/src, whatever Exception-class failures
+   the steps raise, shutdown does not raise, and its only early return is the 'not started' guard *)
+Theorem C14_shutdown_contains_failures :
+  forall t o c, exec (only_exc skel_deep_shutdown) t o -> o <> ORaise c.
+Proof. apply no_escape. vm_compute. reflexivity. Qed.
+Print Assumptions C14_shutdown_contains_failures.
+Theorem C14_shutdown_single_guard : length (ret_paths skel_deep_shutdown) = 1%nat.
+Proof. vm_compute. reflexivity. Qed.
+Print Assumptions C14_shutdown_single_guard.
